@@ -477,20 +477,22 @@ func trimPathPrefix(u *url.URL, prefix string) *url.URL {
 	if !strings.HasPrefix(trimmedPath, "/") {
 		trimmedPath = "/" + trimmedPath
 	}
-	// After trimming path reconstruct uri string with Query before parsing
-	trimmedURI := trimmedPath
-	if u.RawQuery != "" || u.ForceQuery == true {
-		trimmedURI = trimmedPath + "?" + u.RawQuery
-	}
-	if u.Fragment != "" {
-		trimmedURI = trimmedURI + "#" + u.Fragment
-	}
-	trimmedURL, err := url.Parse(trimmedURI)
+	// Only the path changes. The trimmed path must not be parsed as a
+	// whole URL again: what remains may begin with "//", which url.Parse
+	// would read as an authority (host) and drop from the path.
+	path, err := url.PathUnescape(trimmedPath)
 	if err != nil {
-		log.Printf("[ERROR] Unable to parse trimmed URL %s: %v", trimmedURI, err)
+		log.Printf("[ERROR] Unable to unescape trimmed path %s: %v", trimmedPath, err)
 		return u
 	}
-	return trimmedURL
+	trimmedURL := *u
+	trimmedURL.Path = path
+	trimmedURL.RawPath = ""
+	if trimmedURL.EscapedPath() != trimmedPath {
+		// keep the received spelling, as url.Parse would
+		trimmedURL.RawPath = trimmedPath
+	}
+	return &trimmedURL
 }
 
 // Address returns the address s was assigned to listen on.
